@@ -301,6 +301,12 @@ def call_builtin(I, live, args, kwargs, node=None):
             return set_to_seq(I, v, "list")
         if v.kind in ("llist", "mapped"):
             return v
+        if I.codec is not None and isinstance(v, SIterable) and v.what == "zip" and len(v.payload) == 2 \
+                and all(getattr(x, "kind", None) == "mapped" for x in v.payload) and v.payload[0].src is v.payload[1].src:
+            # list(zip([f(e) for e in xs], [g(e) for e in xs])) is [(f(e), g(e)) for e in xs]
+            a, b = v.payload
+            k_, elem, n_ = I.codec.generic_of(a.src)
+            return I.codec.lift(a.src, elem, STuple([a.value, b.value]))
         raise Unsupported("list() of symbolic iterable")
     if live is set or live is frozenset:
         if not args:
